@@ -723,21 +723,21 @@ theorem pop_entering (cs : List CState) :
 
 mutual
 theorem G_node (pd : Bool) (t : Node) (cs : List CState) :
-    G pd cs (flatten t) = (handleAlias cs, mergeKeys t + b2n (isKeyTop cs && isMergeKeyNode t), true) := by
+    G pd cs (flatten t) = (handleAlias cs, mergeKeys t + b2n (isKeyTop cs && isMergeKeyTree t), true) := by
   match t with
   | .scalar v st a tag =>
-    simp only [flatten, G_cons, G_nil, cstep, mkOf, wf, mergeKeys, isMergeKeyNode]
+    simp only [flatten, G_cons, G_nil, cstep, mkOf, wf, mergeKeys, isMergeKeyTree]
     have : (handleScalar cs false).1 = handleAlias cs := by
       unfold handleScalar handleAlias; split <;> rfl
     simp [this]
   | .alias id =>
-    simp [flatten, G_cons, G_nil, cstep, mkOf, wf, mergeKeys, isMergeKeyNode, b2n]
+    simp [flatten, G_cons, G_nil, cstep, mkOf, wf, mergeKeys, isMergeKeyTree, b2n]
   | .seq a tag items =>
-    simp only [flatten, G_cons, G_append, G_nil, cstep, mkOf, wf, mergeKeys, isMergeKeyNode]
+    simp only [flatten, G_cons, G_append, G_nil, cstep, mkOf, wf, mergeKeys, isMergeKeyTree]
     rw [G_list pd items]
     simp [pop_entering, b2n]
   | .map a tag entries =>
-    simp only [flatten, G_cons, G_append, G_nil, cstep, mkOf, wf, mergeKeys, isMergeKeyNode]
+    simp only [flatten, G_cons, G_append, G_nil, cstep, mkOf, wf, mergeKeys, isMergeKeyTree]
     rw [G_entries pd entries]
     simp [pop_entering, b2n]
 theorem G_list (pd : Bool) (ts : List Node) (fm : Bool) (r : List CState) :
